@@ -117,9 +117,6 @@ theorem header_set_get (h : Dic) (n v : Bytes) (hv : v ≠ []) :
   obtain ⟨h1, h2, _⟩ := header_lookup_case_insensitive (setHeader h n v) n
   exact ⟨h1.trans key, h2.trans key, key⟩
 
-/-- lowercase hexadecimal digits of a number (chunk-size lines) -/
-def lowerHex (n : Nat) : Bytes := (Nat.toDigits 16 n).map fun c => c.toNat.toUInt8
-
 /-! ## a well-formed request is handed over exactly as sent -/
 
 /-- a line `ℓ LF` (no LF inside, at most 16001 bytes) at the head of a healthy connection is returned as `ℓ`, and
@@ -171,16 +168,33 @@ theorem serve_faithful (qs : List WfReq) (hq : ∀ q ∈ qs, WellFormed q ∧ Di
     { inp := qs.flatMap serialize } [] rfl rfl rfl (by have := flatMap_serialize_length qs; omega)
   exact ⟨s', by simpa using h1, h2, h3⟩
 
-/-- the same for chunked framing — stated, not proved (validated by the correspondence check and the python
-    reference on generated chunked requests): for every split of the body into non-empty chunks -/
-def read_faithful_chunked_full : Prop :=
-  ∀ (m t p : Bytes) (hs : List (Bytes × Bytes)) (chunks : List Bytes) (rest : Bytes),
-    WellFormed ⟨m, t, p, hs, []⟩ → (cstr (header (hdrDic hs) sTransferEncoding) == sChunked) = true →
-    hasHeader (hdrDic hs) sContentLength = false → (∀ c ∈ chunks, c ≠ [] ∧ c.length < 2 ^ 31) →
-    ∃ r, AslModel.HttpParse.read
-        { inp := m ++ 32 :: (t ++ 32 :: (p ++ 13 :: 10 :: (hdrBlock hs ++ 13 :: 10 ::
-                  (chunks.flatMap (fun c => lowerHex c.length ++ 13 :: 10 :: (c ++ [13, 10])) ++ [48, 13, 10, 13, 10] ++ rest)))) }
-        = .ok r ∧ r.1.body = chunks.flatten ∧ r.2.inp = rest ∧ r.2.err = 0
+/-- **read ∘ serialize = id for chunked framing**: a well-formed head with `Transfer-Encoding: chunked` (and no
+    Content-Length), any list of non-empty chunks of fewer than 2^31 bytes each in the canonical encoding
+    (`"%x" CRLF data CRLF`, then `0 CRLF CRLF`), followed by arbitrary further bytes: the body handed over is the
+    concatenation of the chunks and `rest` stays unread -/
+theorem read_faithful_chunked (m t p : Bytes) (hs : List (Bytes × Bytes)) (chunks : List Bytes) (rest : Bytes)
+    (hw : HeadOk m t p hs) (hch : ∀ d ∈ chunks, 0 < d.length ∧ d.length < 2 ^ 31)
+    (hcl : hasHeader (hdrDic hs) sContentLength = false)
+    (hte : (cstr (header (hdrDic hs) sTransferEncoding) == sChunked) = true) :
+    ∃ tg, parseTarget t = .ok tg ∧
+      AslModel.HttpParse.read
+          { inp := m ++ 32 :: (t ++ 32 :: (p ++ 13 :: 10 :: (hdrBlock hs ++ 13 :: 10 :: (chunkedBody chunks ++ rest)))) } =
+        .ok (mkReq m t p tg (hdrDic hs) chunks.flatten, { inp := rest }) :=
+  read_faithful_chunked_canon m t p hs chunks rest hw hch hcl hte
+
+/-- a chunk-size line in any other spelling the code accepts (upper case, leading zeros, `0x`, extensions) works the
+    same as long as `strtoul` reads the data length from it (`ChunkOk.size`) -/
+theorem read_faithful_chunked_any_spelling (s : Sock) (m t p : Bytes) (hs : List (Bytes × Bytes)) (cs : List Chunk)
+    (sizeLine rest : Bytes) (hw : HeadOk m t p hs) (hcs : ∀ c ∈ cs, ChunkOk c)
+    (hlf : ∀ b ∈ sizeLine, b ≠ 10) (hshort : sizeLine.length ≤ 16000) (hz : hexToInt (sizeLine ++ [13]) = 0)
+    (hcl : hasHeader (hdrDic hs) sContentLength = false)
+    (hte : (cstr (header (hdrDic hs) sTransferEncoding) == sChunked) = true)
+    (he : s.err = 0) (hc : s.closed = false)
+    (hi : s.inp = m ++ 32 :: (t ++ 32 :: (p ++ 13 :: 10 :: (hdrBlock hs ++ 13 :: 10 ::
+            (cs.flatMap Chunk.bytes ++ (sizeLine ++ 13 :: 10 :: 13 :: 10 :: rest)))))) :
+    ∃ tg, parseTarget t = .ok tg ∧
+      AslModel.HttpParse.read s = .ok (mkReq m t p tg (hdrDic hs) (cs.map Chunk.data).flatten, { s with inp := rest }) :=
+  read_faithful_chunked_aux s m t p hs cs sizeLine rest hw hcs hlf hshort hz hcl hte he hc hi
 
 /-- query strings never fault: `Url::parseQuery` is total on every byte string -/
 theorem query_total (qs : Bytes) : ∃ d, parseQuery qs = .ok d := parseQuery_ok qs
@@ -220,5 +234,19 @@ example : Dispatched ⟨[80, 79, 83, 84], [47, 97], [72, 84, 84, 80, 47, 49, 46,
   not_options := by decide
   path_ne := by decide
   keeps := by decide
+
+-- a chunked head and two chunks ("ab", 17 bytes): hypotheses of `read_faithful_chunked`; "%x" of 17 is "11"
+example : HeadOk [80, 79, 83, 84] [47] [72, 84, 84, 80, 47, 49, 46, 49] [(sTransferEncoding, sChunked)] where
+  method_ne := by decide
+  method_ok := by decide
+  target_ok := by decide
+  proto_ok := by unfold ValueOk; decide
+  line_len := by decide
+  headers_ok := by unfold HeadersOk NameOk ValueOk; decide
+  no_expect := by decide
+example : hexDigitsOf 17 = [49, 49] := by
+  rw [hexDigitsOf]; simp only [show ¬ (17 < 16) by decide, dite_false]
+  rw [hexDigitsOf]; decide
+example : hexDigitsOf 0 = [48] := by rw [hexDigitsOf]; decide
 
 end C09
